@@ -191,6 +191,8 @@ def _reader_table(chk, rf):
     for kw in ctor.keywords:
         chk.require(kw.arg is not None, f"{rf.key}: **kwargs in cls(...) - unknown idiom")
         v = X(kw.value)
+        if isinstance(v, ast.Name) and v.id not in names and len([d_ for d_ in assignments(rf.node).get(v.id, []) if isinstance(d_, ast.AST)]) >= 2:
+            raise AnalysisError(f"{rf.key}: `{kw.arg}=` is decoded on several branches (`{v.id}` has more than one definition) - which decoding applies is decided by control flow; not decided")
         data, dims, dtype = None, None, None
         fb = [c for c in ast.walk(v) if isinstance(c, ast.Call) and (call_name(c) or "").endswith("frombuffer")]
         if fb:
